@@ -14,7 +14,7 @@ TInit ==
   /\ t0 \in Starts /\ l = t0
   /\ prog = [p \in Procs |-> <<>>] /\ cur = [p \in Procs |-> NoCall]
   /\ lock = "free" /\ outClosed = FALSE /\ inClosed = FALSE /\ wire = <<>>
-  /\ rets = [p \in Procs |-> <<>>] /\ peer = <<>> /\ avail = 0 /\ failArmed = FALSE /\ dl = FALSE
+  /\ rets = [p \in Procs |-> <<>>] /\ peer = <<>> /\ avail = 0 /\ failArmed = FALSE /\ dl = "none" /\ broken = FALSE
   /\ sv = [phase |-> "init", reason |-> "none", owner |-> "none", pending |-> 0]
 
 ProgOf(r, p) == IF \E i \in 1..Len(r.progs) : r.progs[i].p = p
@@ -26,7 +26,7 @@ TrReset ==
   /\ peer' = Trace[l].script \o <<"eof">>
   /\ sv' = [sv EXCEPT !.phase = "idle"]
   /\ failArmed' = Trace[l].failclose
-  /\ UNCHANGED <<cur, lock, outClosed, inClosed, wire, rets, avail, dl>>
+  /\ UNCHANGED <<cur, lock, outClosed, inClosed, wire, rets, avail, dl, broken>>
 
 TrCall == IsEv("call") /\ Begin(Trace[l].p) /\ cur'[Trace[l].p].k = Trace[l].k
 TrRet ==
@@ -42,8 +42,13 @@ TrWrite ==
      \/ w = "close" /\ CloseWrite(p)
      \/ w = "closefail" /\ CloseWriteFail(p)
      \/ w = "err" /\ ErrWrite(p)
-TrPeer == IsEv("peer") /\ PeerFeed /\ peer[avail'] = Trace[l].item
-TrDeadline == IsEv("deadline") /\ Deadline
+(* The driver ends the peer's byte stream ("eof") only when every goroutine is blocked: a   *)
+(* Serve that still waits for input then, after the close deadline has passed, has outlived *)
+(* the deadline (C10).                                                                      *)
+TrPeer == /\ IsEv("peer") /\ PeerFeed /\ peer[avail'] = Trace[l].item
+          /\ (Trace[l].item = "eof" /\ dl = "passed" => sv.phase = "done")
+TrDeadline == \/ IsEv("deadline") /\ Deadline
+              \/ IsEv("deadline_set") /\ DeadlineSet
 TrHandler == IsEv("handler") /\ ServeItem(sv.owner) /\ Head(peer) = Trace[l].item
 (* hook events: for the serve process they mark the start of the calls Serve issues *)
 HookKind(pt) == CASE pt = "senderr.enter" -> "senderr"
@@ -73,14 +78,16 @@ TrParsed ==
          cw == Collapse(wire) IN
      /\ Len(its) = Len(cw)
      /\ \A i \in 1..Len(its) :
-          /\ its[i].what = cw[i].what /\ its[i].complete /\ its[i].pure
+          /\ its[i].what = cw[i].what /\ its[i].pure
+          /\ (its[i].complete \/ (broken /\ i = Len(its)))   \* cut short only by the transport failure
           /\ (its[i].what = "elem" => its[i].owner = cw[i].p)
   /\ \A p \in Procs : cur[p] = NoCall                   \* nobody is left inside a call
   /\ UNCHANGED vars
 
 Silent ==
   /\ \/ \E p \in Procs : Acquire(p) \/ CloseInput(p) \/ ServeStart(p) \/ ServeAbort(p) \/ ServeDeadline(p)
-     \/ \E p \in Procs : TxRefuse(p) \/ TxDone(p) \/ CloseDone(p) \/ Rx(p)   \* end of a call's body
+     \/ \E p \in Procs : TxRefuse(p) \/ TxDone(p) \/ TxcFail(p) \/ TxBroken(p) \/ CloseDone(p) \/ Rx(p)   \* end of a call's body
+     \/ \E p \in Procs : broken /\ CloseWriteFail(p)     \* the failing write never reaches the transport
      \/ \E p \in Procs : p = sv.owner /\ cur[p].k \in {"tx", "senderr", "closeinput", "close"} /\ Ret(p) \* calls Serve issued itself
      \/ \E p \in Procs : p = sv.owner /\ ServeItem(p) /\ Head(peer) \in {"close", "streamerr", "eof"}
   /\ UNCHANGED l
